@@ -46,8 +46,14 @@ func (ir *IntrospectionResolver) resolveSchema(schema *ast.Schema, selectionSet 
 		switch f.Name {
 		case "types":
 			types := []map[string]interface{}{}
-			for _, t := range schema.Types {
-				types = append(types, ir.resolveType(schema, &ast.Type{NamedType: t.Name}, f.SelectionSet))
+			// in name order whether or not the client selected `name`
+			typeNames := make([]string, 0, len(schema.Types))
+			for name := range schema.Types {
+				typeNames = append(typeNames, name)
+			}
+			sort.Strings(typeNames)
+			for _, name := range typeNames {
+				types = append(types, ir.resolveType(schema, &ast.Type{NamedType: schema.Types[name].Name}, f.SelectionSet))
 			}
 			sortPayload(types)
 			result[f.Alias] = types
@@ -63,8 +69,13 @@ func (ir *IntrospectionResolver) resolveSchema(schema *ast.Schema, selectionSet 
 			result[f.Alias] = ir.resolveType(schema, &ast.Type{NamedType: "Subscription"}, f.SelectionSet)
 		case "directives":
 			directives := []map[string]interface{}{}
-			for _, d := range schema.Directives {
-				directives = append(directives, ir.resolveDirective(schema, d, f.SelectionSet))
+			directiveNames := make([]string, 0, len(schema.Directives))
+			for name := range schema.Directives {
+				directiveNames = append(directiveNames, name)
+			}
+			sort.Strings(directiveNames)
+			for _, name := range directiveNames {
+				directives = append(directives, ir.resolveDirective(schema, schema.Directives[name], f.SelectionSet))
 			}
 			sortPayload(directives)
 			result[f.Alias] = directives
